@@ -75,7 +75,7 @@ def fmt_items(items):
 
 MUT_NO_READ = {"new", "lit", "attach", "copy", "ptr", "fill", "cap", "assign", "clear", "detach", "cstr", "resize",
                "reserve", "fillfrom", "appendS", "append", "appendC", "prependS", "prepend", "substr", "join",
-               "prependX", "appendX", "printf"}
+               "prependX", "appendX", "printf", "appendA", "prependA"}
 
 
 class Ref:
@@ -133,6 +133,12 @@ class Ref:
         elif op == "prependS": V[v] = list(V[int(t[2])]) + a
         elif op == "prependX": V[v] = list(self.operand(t[2])) + a
         elif op == "prepend": V[v] = unhex(t[2]) + a
+        elif op == "appendA":
+            if int(t[2]) + int(t[3]) > len(a): return "bad-op"
+            V[v] = a + a[int(t[2]):int(t[2]) + int(t[3])]
+        elif op == "prependA":
+            if int(t[2]) + int(t[3]) > len(a): return "bad-op"
+            V[v] = a[int(t[2]):int(t[2]) + int(t[3])] + a
         elif op == "replaceC":
             x, y = int(t[2]), int(t[3])
             k = len(cpart(a))
@@ -361,7 +367,7 @@ MORE_OPS = [
     "new 0", "cap 0 8", "fill 0 3 98", "detach 0", "fillfrom 0 0 66", "appendC 0 47", "upper 0", "lower 0", "substr 0 0 -2 -1",
     "tokenC 1 0 47 0", "tokenS 1 0 2f20 1", "split 0 2f 0", "split 0 20 1", "join 0 32", "join 1 47", "replaceS 0 1 1", "replaceS 0 0 0",
     "printf 0 L61 D-5", "assign 2 0", "appendS 1 0", "prependS 1 0", "clear 1", "attach 1 2 1 2", "lit 1 1", "trim 1 20",
-    "compare 0 1", "eq 0 1", "findLastS 0 -", "hash 0", "toBool 0",
+    "compare 0 1", "eq 0 1", "findLastS 0 -", "hash 0", "toBool 0", "prependA 0 0 1", "prependA 0 1 2",
 ]
 
 
@@ -487,6 +493,16 @@ def gen_history(rng, length):
         elif k < 0.52: op = f"appendC {v} {rng.choice([97, 47, 32, 128, 48])}"
         elif k < 0.56: op = f"prependS {v} {w}"
         elif k < 0.59: op = f"prepend {v} {rand_bytes(rng, n)}"
+        elif k < 0.592:
+            o = rng.randrange(ln + 1)
+            op = f"prependA {v} {o} {rng.randrange(ln - o + 1)}"
+        elif k < 0.596:
+            # append with a pointer into the string itself is only defined when nothing is reallocated
+            o = rng.randrange(ln + 1)
+            n2 = rng.randrange(ln - o + 1)
+            h.append(f"reserve {v} {ln + n2 + rng.choice([0, 0, 1, 5])}")
+            r.apply(h[-1])
+            op = f"appendA {v} {o} {n2}"
         elif k < 0.60: op = f"prependX {v} {x}"
         elif k < 0.61: op = f"appendX {v} {x}"
         elif k < 0.63: op = f"replaceC {v} {rng.choice([97, 98, 47, 32])} {rng.choice([97, 47, 120])}"
@@ -583,6 +599,11 @@ def boundary_histories(quick):
                         add(pre + [f"ptr 2 {toks if k else '-'}", "split 2 2f 0", "join 0 47"], "join", shared, k - C_)
                     if k == 1:
                         add(pre + ["appendC 0 47"], "append(char)", shared, d)
+                    if 0 <= k <= L:
+                        add(pre + [f"prependA 0 0 {k}"], "prepend(own pointer)", shared, d)
+                        if d <= 0 and not shared:
+                            # defined only while nothing is reallocated: needed capacity up to exactly cap
+                            add(pre + [f"appendA 0 {L - k} {k}"], "append(own pointer)", shared, d)
                     if 2 * L == need:
                         add(pre + ["appendS 0 0"], "append(self)", shared, d)
                         add(pre + ["prependS 0 0"], "prepend(self)", shared, d)
